@@ -1,6 +1,8 @@
 package main
 
 import (
+	"go/token"
+	"sort"
 	"fmt"
 	"go/ast"
 	"strings"
@@ -106,5 +108,70 @@ func (x *extractor) genGuards(b *strings.Builder) {
 			return true
 		})
 		fmt.Fprintf(b, "def %s : Option (List String) := some [%s]\n", name, quoteJoin(eff))
+	}
+	// receiver writes: for every method of the library packages, the assignments (and ++/--) whose
+	// target is rooted at the receiver — the only way a method can change the object it is called on.
+	// Display and accessor methods must not appear here; the queue's readers must not either.
+	for _, alias := range []string{"header", "t1005", "t1006", "sat4", "sig4", "msg4", "sat7", "sig7", "msg7", "handler", "cq", "pushback"} {
+		p := x.byAlias[alias]
+		if p == nil {
+			fmt.Fprintf(b, "def recv_writes_%s : Option (List String) := none\n", alias)
+			continue
+		}
+		var names []string
+		for name := range p.funcs {
+			names = append(names, name)
+		}
+		sort.Strings(names)
+		var out []string
+		for _, name := range names {
+			fd := p.funcs[name]
+			if fd.Recv == nil || len(fd.Recv.List) == 0 || len(fd.Recv.List[0].Names) == 0 || fd.Body == nil {
+				continue
+			}
+			recv := fd.Recv.List[0].Names[0].Name
+			rooted := func(e ast.Expr) bool {
+				for {
+					switch v := e.(type) {
+					case *ast.SelectorExpr:
+						e = v.X
+					case *ast.IndexExpr:
+						e = v.X
+					case *ast.StarExpr:
+						e = v.X
+					case *ast.ParenExpr:
+						e = v.X
+					case *ast.Ident:
+						return v.Name == recv
+					default:
+						return false
+					}
+				}
+			}
+			ast.Inspect(fd.Body, func(n ast.Node) bool {
+				switch s := n.(type) {
+				case *ast.AssignStmt:
+					if s.Tok == token.DEFINE {
+						return true
+					}
+					for _, l := range s.Lhs {
+						if _, isIdent := l.(*ast.Ident); !isIdent && rooted(l) {
+							out = append(out, name+": "+exprText(l)+" "+s.Tok.String())
+						}
+					}
+				case *ast.IncDecStmt:
+					if _, isIdent := s.X.(*ast.Ident); !isIdent && rooted(s.X) {
+						out = append(out, name+": "+exprText(s.X)+s.Tok.String())
+					}
+				case *ast.CallExpr:
+					// delete(recv.m, k), append into a receiver field via copy(recv.x, …)
+					if id, ok := s.Fun.(*ast.Ident); ok && (id.Name == "delete" || id.Name == "copy") && len(s.Args) > 0 && rooted(s.Args[0]) {
+						out = append(out, name+": "+id.Name+"("+exprText(s.Args[0])+")")
+					}
+				}
+				return true
+			})
+		}
+		fmt.Fprintf(b, "def recv_writes_%s : Option (List String) := some [%s]\n", alias, quoteJoin(out))
 	}
 }
